@@ -116,3 +116,86 @@ pub fn panic_msg(e: Box<dyn std::any::Any + Send>) -> String {
         "panic".to_string()
     }
 }
+
+// ---------------------------------------------------------------- child-process isolation
+/// child side: runs the cases from index `opts.n` on, one flushed outcome line per case
+pub fn child_loop<F: FnMut(&Value) -> Value>(opts: &Opts, stream: &str, cases: &[Value], mut run_case: F) {
+    let mut f = std::fs::OpenOptions::new().create(true).append(true).open(format!("{}/{}.part.jsonl", opts.out, stream)).unwrap();
+    for case in cases.iter().skip(opts.n) {
+        let out = run_case(case);
+        writeln!(f, "{}", out).unwrap();
+        f.flush().unwrap();
+    }
+}
+
+/// child side: notes what is about to run, so that the parent can say where the child died
+pub fn note_progress(out: &str, stream: &str, what: &str) {
+    let _ = std::fs::write(format!("{}/{}.progress", out, stream), what);
+}
+
+/// parent side: runs `vh <stream>-child` over the cases; when the child dies (abort, stack overflow) or makes no
+/// progress for 20 s (hang), the case it was on gets the outcome `{"abort": ...}` and a new child continues
+pub fn run_in_children(opts: &Opts, stream: &str, cases: &[Value]) -> Vec<Value> {
+    use std::time::Duration;
+    std::fs::create_dir_all(&opts.out).unwrap();
+    let todo = format!("{}/{}.todo.jsonl", opts.out, stream);
+    std::fs::write(&todo, cases.iter().map(|c| c.to_string()).collect::<Vec<_>>().join("\n") + "\n").unwrap();
+    let part = format!("{}/{}.part.jsonl", opts.out, stream);
+    let _ = std::fs::remove_file(&part);
+    let exe = std::env::current_exe().unwrap();
+    let mut outs: Vec<Value> = vec![];
+    let count_lines = |p: &str| std::fs::read_to_string(p).map(|s| s.lines().count()).unwrap_or(0);
+    while outs.len() < cases.len() {
+        let start = outs.len();
+        let _ = std::fs::remove_file(&part);
+        let mut ch = std::process::Command::new(&exe)
+            .args([&format!("{stream}-child"), "--replay", &todo, "--n", &start.to_string(), "--out", &opts.out])
+            .stdout(std::process::Stdio::null())
+            .stderr(std::process::Stdio::null())
+            .spawn()
+            .unwrap();
+        let mut last = 0usize;
+        let mut idle = 0u32;
+        let status = loop {
+            match ch.try_wait().unwrap() {
+                Some(s) => break Some(s),
+                None => {
+                    std::thread::sleep(Duration::from_millis(50));
+                    let n = count_lines(&part);
+                    if n == last {
+                        idle += 1;
+                    } else {
+                        idle = 0;
+                        last = n;
+                    }
+                    if idle > 400 {
+                        let _ = ch.kill();
+                        let _ = ch.wait();
+                        break None;
+                    }
+                }
+            }
+        };
+        let done: Vec<Value> = std::fs::read_to_string(&part).unwrap_or_default().lines().filter_map(|l| serde_json::from_str(l).ok()).collect();
+        outs.extend(done);
+        if outs.len() < cases.len() {
+            let why = match status {
+                None => "no progress for 20 s (hang)".to_string(),
+                Some(s) => {
+                    use std::os::unix::process::ExitStatusExt;
+                    match s.signal() {
+                        Some(sig) => format!("killed by signal {sig}"),
+                        None => format!("exit status {:?}", s.code()),
+                    }
+                }
+            };
+            let at = std::fs::read_to_string(format!("{}/{}.progress", opts.out, stream)).unwrap_or_default();
+            outs.push(serde_json::json!({"abort": why, "at": at}));
+            let _ = std::fs::remove_file(format!("{}/{}.progress", opts.out, stream));
+        }
+    }
+    let _ = std::fs::remove_file(&part);
+    let _ = std::fs::remove_file(&todo);
+    outs.truncate(cases.len());
+    outs
+}
